@@ -855,7 +855,7 @@ class ProtocolTransportMixin:
         self.transport.write(data.replace(b"\n", b"\r\n"))
 
     def writeSequence(self, seq):
-        self.transport.writeSequence(seq)
+        self.write(b"".join(seq))
 
     def loseConnection(self):
         self.transport.loseConnection()
